@@ -245,6 +245,15 @@ pub fn number_to_fixed(
         ));
     }
 
+    // NaN, the infinities and numbers from 1e21 on are written as String(n) writes them
+    if !n.is_finite() || n.abs() >= 1e21 {
+        return Ok(Guarded::unguarded(JsValue::String(JsString::from(
+            format_number_js(n),
+        ))));
+    }
+    // -0 is written without a sign
+    let n = if n == 0.0 { 0.0 } else { n };
+
     let result = format!("{:.prec$}", n, prec = digits as usize);
     Ok(Guarded::unguarded(JsValue::String(JsString::from(result))))
 }
